@@ -234,11 +234,11 @@ def run_include(ctx, U, s, ext, cfg, hostile):
 LOAD_PATHS = ('default', 'rel_lib', 'q_lib', 'abs', 'env')
 
 
-def run_require(ctx, U, s, lp, hostile, form=None, literal=None, home=None):
+def run_require(ctx, U, s, lp, hostile, form=None, literal=None, home=None, maindir='root'):
     """literal: the bytes to put between the quotes of the string literal when they are not simply s (escapes, raw high bytes);
     s then only labels the case."""
     from pico8 import tool
-    root = os.path.join(U, 'root')
+    root = os.path.join(U, maindir)
     main = os.path.join(root, 'main_req.lua')
     out = os.path.join(root, 'out_req.p8')
     if literal is not None:
@@ -272,7 +272,9 @@ def run_require(ctx, U, s, lp, hostile, form=None, literal=None, home=None):
     elif lp == 'env':
         env_path = '?;?.lua;' + os.path.join(U, 'abs', '?.lua')
         roots.append(os.path.join(U, 'abs'))
-    case = {'kind': 'require', 'string': s, 'load_path': lp, 'hostile': hostile}
+    case = {'kind': 'require', 'string': s, 'load_path': lp, 'hostile': hostile, 'maindir': maindir, 'home': bool(home)}
+    if literal is not None:
+        case['literal'] = literal
     nontrivial = '..' in s.split('/') or s.startswith('/') or 'rootbar' in s
     ctx.case(('require', s, lp, hostile), nontrivial=nontrivial)
     old = os.environ.get('PICO8_LUA_PATH')
@@ -449,6 +451,12 @@ def run_shard(spec, ctx):
                     for lp in LOAD_PATHS:
                         run_require(ctx, U, s_, lp, hostile, form='paren')
                     ctx.feature('strings_through_directory_links')
+                # values in which a backslash is followed by digits / letters that mean something to template and pattern languages
+                for s_ in ('\\056\\056/x', '\\056\\056/outside/x', '\\x2e\\x2e/x', '\\g<0>/../x', '\\1/../x', '\\.\\./x', '\\056/x', 'sub/\\056\\056/\\056\\056/x',
+                           '\\056\\056\\057x', '\\n/../x'):
+                    for lp in LOAD_PATHS:
+                        run_require(ctx, U, s_, lp, hostile, literal=s_.encode().replace(b'\\', b'\\\\'))
+                    ctx.feature('strings_with_backslash_digit_values')
                 for s_ in ('..\\x', '..\\..\\outside\\x', 'sub\\..\\..\\outside\\x', '.\\..\\x', '..\\/x', 'sub/..\\..\\x', '..\\sub\\x',
                            '\\..\\x', 'x\\..\\..\\x', '..\\rootbar\\x'):
                     for cfg in ('plain', 'subdir', 'carts', 'carts2'):
@@ -498,6 +506,12 @@ def run_shard(spec, ctx):
                         run_include(ctx, U, s_, '.lua', cfg, hostile)
                         run_include(ctx, U, s_, '.p8', cfg, hostile)
                     ctx.feature('carts_folder_lookalikes')
+                # a main file inside a project folder of the PICO-8 carts folder: the other projects there are not its directories
+                for s_ in ('other/x', 'x', 'other/lib', 'lib', 'game/x', 'Game/x', 'init', 'other/init'):
+                    for lp in LOAD_PATHS:
+                        run_require(ctx, U, s_, lp, hostile, form='paren', home=os.path.join(U, 'home'),
+                                    maindir='home/.lexaloffle/pico-8/carts/game')
+                    ctx.feature('main_file_inside_carts_folder_project')
             ctx.feature('names_done')
             return
         if spec['kind'] == 'absolute':
@@ -555,7 +569,8 @@ def replay(case, ctx):
                     run_include(ctx, U, s[:-len(ext)], ext, case['cfg'], case['hostile'])
                     break
         else:
-            run_require(ctx, U, case['string'], case['load_path'], case['hostile'])
+            run_require(ctx, U, case['string'], case['load_path'], case['hostile'], literal=case.get('literal'),
+                        home=os.path.join(U, 'home') if case.get('home') else None, maindir=case.get('maindir', 'root'))
     finally:
         shutil.rmtree(U, ignore_errors=True)
 
@@ -566,7 +581,7 @@ def gates(m, tier):
     N = 3 if tier == 'quick' else 4
     if f.get('strings_enumerated', 0) != len(strings(N)):
         missed.append('strings enumerated %d of %d' % (f.get('strings_enumerated', 0), len(strings(N))))
-    for k in ('cart_loaded_from_stream_without_name', 'cart_under_cwd_relative_carts_folder', 'strings_with_tilde', 'nested_require_from_subdirectory', 'main_named_bare', 'main_named_relative', 'cart_named_bare', 'cart_named_relative', 'links_done', 'strings_through_directory_links', 'strings_with_backslash_separators', 'strings_with_undecodable_bytes', 'sequences_done', 'failed_load_before_case', 'failed_build_before_case', 'include_cfg:subdir', 'absolute_paths_done', 'names_done', 'cart_directories_with_special_characters', 'carts_folder_lookalikes', 'hostile', 'real_fs', 'include_cfg:plain', 'include_cfg:carts', 'include_cfg:carts2', 'include_rejected',
+    for k in ('cart_loaded_from_stream_without_name', 'cart_under_cwd_relative_carts_folder', 'strings_with_tilde', 'nested_require_from_subdirectory', 'main_named_bare', 'main_named_relative', 'cart_named_bare', 'cart_named_relative', 'links_done', 'strings_through_directory_links', 'strings_with_backslash_separators', 'strings_with_undecodable_bytes', 'sequences_done', 'failed_load_before_case', 'failed_build_before_case', 'include_cfg:subdir', 'absolute_paths_done', 'names_done', 'cart_directories_with_special_characters', 'carts_folder_lookalikes', 'main_file_inside_carts_folder_project', 'strings_with_backslash_digit_values', 'hostile', 'real_fs', 'include_cfg:plain', 'include_cfg:carts', 'include_cfg:carts2', 'include_rejected',
               'include_loaded', 'require_rejected', 'require_built') + tuple('load_path:' + l for l in LOAD_PATHS):
         if f.get(k, 0) < 1:
             missed.append('%s never seen' % k)
